@@ -177,14 +177,14 @@ fn eval_level(e: &syn::Expr, levels: &BTreeMap<String, i64>, env: &BTreeMap<Stri
     match e {
         syn::Expr::Paren(p) => eval_level(&p.expr, levels, env, lets, depth),
         syn::Expr::Path(p) => {
-            let t = sm::tsc(&p.path);
+            let t = sm::tsx(&p.path);
             if let Some(n) = t.strip_prefix("precedence::") {
                 return levels.get(n).copied();
             }
-            if let Some(v) = env.get(&t) {
+            if let Some(v) = env.get(&t.text) {
                 return Some(*v);
             }
-            if let Some(d) = lets.get(&t) {
+            if let Some(d) = lets.get(&t.text) {
                 return eval_level(d, levels, env, lets, depth + 1);
             }
             None
@@ -525,7 +525,7 @@ pub fn run(cx: &mut Ctx) {
         }
     }
     // Display = TEST
-    let t = sm::tsc(&up.file);
+    let t = sm::tsx(&up.file);
     if t.contains("impl<U>fmt::DisplayforExpr<U>{fnfmt(&self,f:&mutfmt::Formatter<'_>)->fmt::Result{Unparser::new(f).unparse_expr(self,precedence::TEST)}}") {
         cx.ok("C11.P2", "Display for Expr renders at TEST");
     } else {
